@@ -9,7 +9,8 @@ from contracts.deser import DFILE, frame_unit, closure_unit, encdec_unit, decenc
 from vc import sm
 from .c04 import py_lib, STFILE
 
-BOUNDED_ONLY = ('instantiate', 'instantiate_pattern')       # see DESIGN.md: the Instantiate case builds its dict through map/zip/reversed
+BOUNDED_ONLY = ('instantiate', 'instantiate_pattern')       # their enc->dec units are slow: thorough tier only
+TIER = ['quick']
 
 
 def units_for(repo, cs, pid):
@@ -17,21 +18,20 @@ def units_for(repo, cs, pid):
     for w in ('maybe_next_byte', 'next_byte', 'read_list'):
         us.append(Unit(f'{pid}/py/deserialize_instructions.{w}', closure_unit(repo, cs, w), info={'split_depth': 1}))
     for m in list(METHODS) + ['symbol']:
-        if m in BOUNDED_ONLY:
-            continue
+        if m in BOUNDED_ONLY and TIER[0] != 'thorough':
+            continue            # enc->dec of the Instantiate case: ~5 min per unit, thorough tier only (quick: dec->enc unit + bounded stand-in)
         for ph in PHASES_OF.get(m, ['Proof']):
             us.append(Unit(f'{pid}/py/enc-dec/{m}/{ph}', encdec_unit(repo, cs, m, ph), info={'split_depth': 1}))
     for m in ('pop', 'save', 'load'):
         us.append(Unit(f'{pid}/py/enc-dec/{m}[Proved term]/Proof', encdec_unit(repo, cs, m, 'Proof', proved_term=True), info={'split_depth': 1}))
     for op in list(sm.OPC) + ['other']:
-        if op == 'Instantiate':
-            continue
         for ph in (['Gamma', 'Claim', 'Proof'] if op == 'Publish' else ['Proof']):
             us.append(Unit(f'{pid}/py/dec-enc/{op}/{ph}', decenc_unit(repo, cs, op, ph), info={'split_depth': 1}))
     return us
 
 
 def build(repo, tier):
+    TIER[0] = tier
     notes = []
     try:
         JE = reflect_bool_method(repo, 'evar_is_free')
@@ -40,8 +40,10 @@ def build(repo, tier):
         notes.append(f'reflection of evar_is_free failed: {e!r}')
     cs = c12_contracts(JE)
     lib = py_lib(JE)
-    from vc.speclemmas import STREAM
+    from vc.speclemmas import STREAM, MAPL, ZIPL
     lib.update(STREAM)
+    lib.update({k: v for k, v in MAPL.items() if v is not None})
+    lib.update({k: v for k, v in ZIPL.items() if v is not None})
     units = lemma_units(lib) + units_for(repo, cs, 'C14')
     du, dt, dfn = merge(eq_units(repo, cs, 'C14'), family_units(repo, cs, 'C14', 'instantiate'), family_units(repo, cs, 'C14', 'evar_is_free'),
                         destructuring_units(repo, cs, 'C14', unwrap_classes=('Implies',), meths=('unwrap', 'extract'), deconstructs=()),
@@ -62,8 +64,7 @@ def build(repo, tier):
         if w is not None:
             viol.append({'name': 'C14/bounded/replay of serialised call sequences (Instantiate case)', 'status': 'refuted-bounded', 'backend': 'bounded run on the real code',
                          'model': None, 'detail': w.get('failed_clause', ''), 'confirmed': True, 'replay': w})
-        return [{'bounded': {'kind': 'Instantiate case of deserialize_instructions (its dict is built through map/zip/reversed over a symbolic-length slice: outside the '
-                                     'front end): random accepted call sequences on the real serialiser replayed by the real deserialiser (state and bytes compared, symbols '
+        return [{'bounded': {'kind': 'random accepted call sequences on the real serialiser replayed by the real deserialiser (state and bytes compared, symbols '
                                      'renumbered); every cut inside an instruction and every spliced unknown/zero opcode must raise',
                              'programs': n, 'bound': f'<= 6 calls per sequence, patterns of depth <= 2, seed {seed}'}, 'violations': viol}]
     spec.extra_checks.append(instantiate_standin)
